@@ -675,3 +675,33 @@ Proof.
   pose proof (H i s1 (Some []) s2 H1 H2 H3) as HP. cbv beta iota in HP.
   destruct (union (grun_all ps opss)); [congruence|exact HP].
 Qed.
+
+(* ---------- variance_mean is derived from the CLAMPED variance ---------- *)
+Lemma derived_varm s q c : let '(_, v, vm) := derived s q c in vm = (v / inject_Z c)%Q.
+Proof. unfold derived. reflexivity. Qed.
+
+Theorem union_variance_mean ps s : union ps <> [] -> holds_union ps s ->
+  v_varm s = (v_var s / inject_Z (v_count s))%Q /\ (0 <= v_var s)%Q /\ (0 <= v_varm s)%Q.
+Proof.
+  intros Hne HU. destruct (union_derived ps s Hne HU) as [_ [_ [_ [Hv _]]]].
+  destruct HU as [_ [[C _] D]]. unfold rec_of in C; simpl in C.
+  assert (Hpos : 0 < v_count s) by (rewrite C; destruct (union ps); [congruence|simpl; lia]).
+  pose proof (derived_varm (v_sum s) (v_sq s) (v_count s)) as F. rewrite <- D in F.
+  split; [exact F|]. split; [exact Hv|]. rewrite F.
+  apply Qle_shift_div_l; [unfold Qlt; simpl; lia|]. rewrite Qmult_0_l. exact Hv.
+Qed.
+
+(* for every history: after the last compute (hence after every compute) every rank that had the variable dirty holds
+   variance >= 0 and variance_mean = variance / count >= 0, variance being the clamped value *)
+Theorem history_variance_mean sts ps rounds opss sts' i xs s2 :
+  Forall2 Inv sts ps -> legal_hist ps (rounds ++ [opss]) -> hist sts (rounds ++ [opss]) sts' ->
+  nth_error (grun_all (ghist ps rounds) opss) i = Some (Some xs) -> nth_error sts' i = Some s2 ->
+  (v_varm s2 == v_var s2 / inject_Z (v_count s2))%Q /\ (0 <= v_var s2)%Q /\ (0 <= v_varm s2)%Q.
+Proof.
+  intros HI HL HH Hp Hs. destruct (history_union sts ps rounds opss sts' HI HL HH) as [_ [stsN [_ H]]].
+  pose proof (H i (Some xs) s2 Hp Hs) as HP. cbv beta iota in HP.
+  destruct (union (grun_all (ghist ps rounds) opss)) as [|u tl] eqn:EU.
+  - subst s2. simpl. split; [reflexivity|split; apply Qle_refl].
+  - assert (Hne : union (grun_all (ghist ps rounds) opss) <> []) by (rewrite EU; discriminate).
+    destruct (union_variance_mean _ s2 Hne HP) as [A [B C]]. rewrite A at 1. split; [reflexivity|split; assumption].
+Qed.
